@@ -39,6 +39,10 @@ type ent struct {
 	dupOf   int // index of an earlier entry with the same key, or -1
 }
 
+// mtimeShift decorrelates modification times from access times: entries are
+// read back in another order than they were written.
+var mtimeShift = func(at time.Time) time.Time { return at.Add(-time.Hour) }
+
 func write(dir, rel string, data []byte, at time.Time) error {
 	p := filepath.Join(dir, rel)
 	if err := os.MkdirAll(filepath.Dir(p), 0o755); err != nil {
@@ -47,7 +51,7 @@ func write(dir, rel string, data []byte, at time.Time) error {
 	if err := os.WriteFile(p, data, 0o644); err != nil {
 		return err
 	}
-	return os.Chtimes(p, at, at.Add(-time.Hour))
+	return os.Chtimes(p, at, mtimeShift(at))
 }
 
 func TestC09Restart(t *testing.T) {
@@ -61,6 +65,15 @@ func TestC09Restart(t *testing.T) {
 		}
 		base := time.Date(2024, 1, 1, 0, 0, 0, 0, time.UTC)
 		perm := rapid.Permutation(seq(n)).Draw(t, "atimeOrder")
+		// modification times in the reverse (or an unrelated) order of the access times
+		base0 := time.Date(2024, 1, 1, 0, 0, 0, 0, time.UTC)
+		mrev := rapid.Bool().Draw(t, "mtimeReversed")
+		mtimeShift = func(at time.Time) time.Time {
+			if mrev {
+				return base0.Add(-at.Sub(base0)) // later access => earlier modification
+			}
+			return at.Add(-time.Hour)
+		}
 		var ents []*ent
 		layouts := map[string]bool{}
 		for i := 0; i < n; i++ {
@@ -355,6 +368,8 @@ func TestC09EvictionOrderLater(t *testing.T) {
 		n := rapid.IntRange(2, 8).Draw(t, "n")
 		base := time.Date(2024, 1, 1, 0, 0, 0, 0, time.UTC)
 		perm := rapid.Permutation(seq(n)).Draw(t, "order")
+		base1 := time.Date(2024, 1, 1, 0, 0, 0, 0, time.UTC)
+		mtimeShift = func(at time.Time) time.Time { return base1.Add(-at.Sub(base1)) }
 		type it struct {
 			key   string
 			atime time.Time
